@@ -62,7 +62,7 @@ def run(tier):
     vlib.stage_specs(wd, "vm", "read", "subset", "cff", "common")
     q = tier == "quick"
     out = tlc_out(ck, wd, "HintVMMC", "HintVMMC_arith.cfg", "vm_arith")
-    strict(ck, "vm:extreme-operands", "fv-total", ["c02", "vm", "--programs", out, "--out", os.path.join(wd, "a.ndjson")])
+    strict(ck, "vm:extreme-operands", "fv-total", ["c02", "vm", "--huge", "--programs", out, "--out", os.path.join(wd, "a.ndjson")])
     os.remove(out)
     out = tlc_out(ck, wd, "HintVMMC", "HintVMMC_quick.cfg" if q else "HintVMMC_thorough.cfg", "vm_ctrl", xmx="16g", workers=12)
     strict(ck, "vm:control-flow", "fv-total", ["c02", "vm", "--programs", out, "--out", os.path.join(wd, "b.ndjson")])
